@@ -50,10 +50,11 @@ ConstructCrash(o) ==
   /\ ~(UseCache /\ pgc.st = "complete") /\ Tick /\ UNCHANGED files
   /\ pgc' = [Written(o) EXCEPT !.st = "prefix"]
   /\ last' = [op |-> "crash", opts |-> o]
-\* pglr compile: force_create with the command line's (unresolved) options
-PglrCompile ==
+\* pglr compile: force_create with the command line's options: w = "cli" (no flag: nothing resolved) or "clips" (--prefer-shifts alone:
+\* shift/EMPTY-reduction conflicts stay); the table written is the one a parser with those very options computes
+PglrCompile(w) ==
   /\ Tick /\ UNCHANGED files
-  /\ pgc' = Written("cli")
+  /\ pgc' = Written(w)
   /\ last' = [op |-> "compile"]
 Edit(f) == Tick /\ files' = [files EXCEPT ![f] = [mtime |-> clock, ver |-> @.ver + 1]] /\ UNCHANGED pgc /\ last' = [op |-> "edit"]
 Touch(f) == Tick /\ files' = [files EXCEPT ![f].mtime = clock] /\ UNCHANGED pgc /\ last' = [op |-> "touch"]
@@ -68,10 +69,10 @@ OU == obs' = Reply(last') \o "|" \o pgc'.st \o "|" \o pgc'.writer
 
 DoConstruct(o) == Construct(o) /\ OU
 DoCrash(o) == ConstructCrash(o) /\ OU
-DoCompile == PglrCompile /\ OU
+DoCompile(w) == PglrCompile(w) /\ OU
 DoEdit(f) == Edit(f) /\ OU
 DoTouch(f) == Touch(f) /\ OU
-Next == (\E o \in Opts : DoConstruct(o)) \/ (\E o \in Opts : DoCrash(o)) \/ DoCompile
+Next == (\E o \in Opts : DoConstruct(o)) \/ (\E o \in Opts : DoCrash(o)) \/ DoCompile("cli") \/ DoCompile("clips")
         \/ (\E f \in Files : DoEdit(f)) \/ (\E f \in Files : DoTouch(f))
 Spec == Init /\ [][Next]_vars
 
